@@ -431,7 +431,7 @@ func ruleC10Initialised(p *Program, r *Run, isNodeStruct func(types.Type) bool) 
 				bound = objOf(info, as.Lhs[0])
 			}
 			n++
-			var missing []string
+			var missing, late []string
 			for i := 0; i < st.NumFields(); i++ {
 				f := st.Field(i)
 				if !types.Identical(f.Type(), spanT) || given[f.Name()] {
@@ -452,7 +452,35 @@ func ruleC10Initialised(p *Program, r *Run, isNodeStruct func(types.Type) bool) 
 				}
 				if !assigned {
 					missing = append(missing, f.Name())
+					continue
 				}
+				// assigned somewhere is not enough: every return that hands the node back as a success (`return v, nil`) is
+				// reached only past a store of the field (after a failed parse [0,0) still lies inside the source)
+				if bas, isAs := par.(*ast.AssignStmt); isAs {
+					ast.Inspect(fd.Body, func(y ast.Node) bool {
+						if _, isLit := y.(*ast.FuncLit); isLit {
+							return false
+						}
+						ret, isRet := y.(*ast.ReturnStmt)
+						if !isRet || ret.Pos() < bas.End() || len(ret.Results) < 2 || !isNilIdent(info, ret.Results[len(ret.Results)-1]) {
+							return true // (judged for returns that report success: `return node, nil`)
+						}
+						gives := false
+						for _, rx := range ret.Results {
+							if objOf(info, rx) == bound {
+								gives = true
+							}
+						}
+						if gives && !p.storeOnEveryPath(fd, bas, ret, bound, f) {
+							late = append(late, fmt.Sprintf("%s (return at %s)", f.Name(), p.Pos(ret.Pos())))
+						}
+						return true
+					})
+				}
+			}
+			if len(late) > 0 && len(missing) == 0 {
+				key := fmt.Sprintf("%s %s literal #%d: span fields initialised before every return", fn, TypeStr(info.TypeOf(cl)), n)
+				r.Check(false, "C10/initialised", key, p.Pos(cl.Pos()), "", fmt.Sprintf("span field(s) %v are left out of the literal and assigned only further down: a return of the node before that assignment hands back [0,0) for them, which counts as a valid position at the start of the source, so the node's extent reaches back to offset 0", late))
 			}
 			key := fmt.Sprintf("%s %s literal #%d: every span field initialised", fn, TypeStr(info.TypeOf(cl)), n)
 			r.Check(len(missing) == 0, "C10/initialised", key, p.Pos(cl.Pos()), "each Span field is set in the literal (token span or nullSpan()) or assigned in this production", fmt.Sprintf("span field(s) %v are neither set in the literal nor assigned in this production: they stay [0,0), which counts as a valid position at the start of the source, so the node's extent reaches back to offset 0", missing))
